@@ -146,29 +146,28 @@ def _work(item):
                 out.append(({"kind": "keyword_axis_clash_wrong_error", "exc": common.classify_exc(e)}, {"desc": desc2, "message": str(e)[:200]}))
     # 2c. a keyword-only parameter WITHOUT a default is a parameter of the function all the same: forwarded verbatim, never a size
     got = {}
+    # the parameter's name is drawn from names that resemble what the adapters reserve ("axis") or use themselves
+    used = {l.name for t in c.ins + c.outs for l in gencalls.leaves(t)}
+    pname = rng.choice([n for n in ("factor", "s", "a", "i", "ax", "xi", "xis", "axi", "axes", "axis_", "keepdim", "dims", "op")
+                        if n not in used])
+    ns = {"np": np, "got": got}
     if c.family == "reduce":
-        def required_kw(x, axis, *, factor):
-            got["factor"] = factor
-            return np.asarray(np.sum(x, axis=axis) * factor)
-        fn_req = einx.numpy.adapt_numpylike_reduce(required_kw)
+        exec(f"def required_kw(x_, axis, *, {pname}):\n    got['factor'] = {pname}\n    return np.asarray(np.sum(x_, axis=axis) * {pname})", ns)
+        fn_req = einx.numpy.adapt_numpylike_reduce(ns["required_kw"])
         base_val = gencalls.evaluate(gencalls.Call("reduce", "sum", c.ins, c.outs, c.arrays, desc=c.desc), plan)[0]
     else:
-        def required_kw(*xs, factor):
-            got["factor"] = factor
-            r = xs[0] * factor
-            for y in xs[1:]:
-                r = r + y
-            return np.asarray(r)
-        fn_req = einx.numpy.adapt_numpylike_elementwise(required_kw)
+        exec(f"def required_kw(*xs_, {pname}):\n    got['factor'] = {pname}\n    r = xs_[0] * {pname}\n    for y_ in xs_[1:]:\n        r = r + y_\n"
+             f"    return np.asarray(r)", ns)
+        fn_req = einx.numpy.adapt_numpylike_elementwise(ns["required_kw"])
         base_val = None
     fv = rng.choice([2, 3, -1])
     try:
-        r = common.with_alarm(30, fn_req, c.desc, *[np.array(a) for a in c.arrays], **kw, factor=fv)
+        r = common.with_alarm(30, fn_req, c.desc, *[np.array(a) for a in c.arrays], **kw, **{pname: fv})
         if got.get("factor") != fv or (base_val is not None and not gencalls.matches(np.asarray(base_val * fv), r)):
-            out.append(({"kind": "keyword_only_not_forwarded_verbatim", "required": True}, {"call": c.record(), "received": str(got), "given": fv}))
+            out.append(({"kind": "keyword_only_not_forwarded_verbatim", "required": True, "name": pname}, {"call": c.record(), "received": str(got), "given": fv}))
     except BaseException as e:  # noqa: BLE001
         out.append(({"kind": "adapter_call_fails", "step": "required_keyword_only", "family": c.family, "exc": common.classify_exc(e)},
-                    {"call": c.record(), "message": str(e)[:300]}))
+                    {"call": c.record(), "parameter": pname, "message": str(e)[:300]}))
     # 2d. repeated calls with keyword values that compare equal but differ in type (also inside tuples): each call's function
     #     receives its own values - (2, 3) then (2.0, 3.0) then (True, 3)
     seen_vals = []
